@@ -181,8 +181,11 @@ timeo_cb(int UNUSED(signum))
 	}
 	block_sigs();
 	if (LIKELY(chld > 0)) {
-		/* pid 0 is our whole process group, daemon and all */
-		kill(chld, SIGXCPU);
+		/* pid 0 is our whole process group, daemon and all;
+		 * the job is the leader of a group of its own */
+		if (kill(-chld, SIGXCPU) < 0) {
+			kill(chld, SIGXCPU);
+		}
 	}
 	return;
 }
@@ -837,6 +840,8 @@ run_task(echsx_task_t t)
 	const char *args[] = {"/bin/sh", "-c", t->t->cmd, NULL};
 	char *const *env = t->t->env ? t->t->env->l : NULL;
 	posix_spawn_file_actions_t fa;
+	posix_spawnattr_t sa;
+	posix_spawnattr_t *sap = NULL;
 	int rc = 0;
 
 	/* use the specified shell */
@@ -863,9 +868,16 @@ cannot initialise file actions: %s", STRERR);
 		rc += posix_spawn_file_actions_addclose(&fa, t->efd);
 	}
 
+	/* the job gets a process group of its own, a time limit is for
+	 * all of it, not just for the shell */
+	if (posix_spawnattr_init(&sa) == 0) {
+		posix_spawnattr_setpgroup(&sa, 0);
+		posix_spawnattr_setflags(&sa, POSIX_SPAWN_SETPGROUP);
+		sap = &sa;
+	}
 	/* spawn the actual beef process */
 	if ((errno = posix_spawn(
-		     &chld, *args, &fa, NULL, deconst(args), env)) != 0) {
+		     &chld, *args, &fa, sap, deconst(args), env)) != 0) {
 		/* posix_spawn() returns the error number */
 		ECHS_ERR_LOG("cannot spawn `%s': %s", *args, STRERR);
 		rc = -1;
@@ -877,6 +889,9 @@ cannot initialise file actions: %s", STRERR);
 		t->xc = 0;
 	}
 
+	if (sap != NULL) {
+		posix_spawnattr_destroy(sap);
+	}
 	/* also get rid of the file actions resources */
 	posix_spawn_file_actions_destroy(&fa);
 
